@@ -62,7 +62,7 @@ ASSUMPTIONS = [
 BOUND = {
     "quick": "shapes {1..4}^3 + (5,1,1),(7,1,1),(1,1,6),(2,3,7),(6,6,6) "
     "[69 shapes, N mod 6 and N mod 3 all covered] x 3 value patterns (+1 "
-    "seed-chosen extra pattern) x 3 origins x 3 spacings x 7 atom lists x 2 "
+    "seed-chosen extra pattern) x 3 origins x 3 spacings (one with skewed axes) x 9 atom lists x 2 "
     "DX styles through the API; 7 atom lists x 2 patterns per shape through "
     "main.dx_to_cube",
     "thorough": "shapes {1..6}^3 + (7,1,1),(2,3,7),(1,7,1),(7,7,7) [220 "
@@ -94,7 +94,6 @@ SPACINGS = {
              (_Z, _Z, "1.250000e+00")),
     "aniso": (("3.750000e-01", _Z, _Z), (_Z, "1.015625e+00", _Z),
               (_Z, _Z, "2.000000e+00")),
-    # thorough
     "skew": (("5.000000e-01", "1.000000e-01", _Z),
              (_Z, "7.500000e-01", "-2.000000e-01"),
              ("3.000000e-01", _Z, "1.250000e+00")),
@@ -102,9 +101,9 @@ SPACINGS = {
              (_Z, _Z, "1.234567e-02")),
 }
 QUICK_ORIGINS = ["zero", "neg", "1e3"]
-QUICK_SPACINGS = ["0.5", "1.25", "aniso"]
+QUICK_SPACINGS = ["0.5", "aniso", "skew"]
 THOROUGH_ORIGINS = QUICK_ORIGINS + ["sub", "huge"]
-THOROUGH_SPACINGS = QUICK_SPACINGS + ["skew", "fine"]
+THOROUGH_SPACINGS = QUICK_SPACINGS + ["1.25", "fine"]
 
 QUICK_PATTERNS = ["mag", "index", "round"]
 EXTRA_PATTERNS = ["extreme", "ulp", "plain"]
